@@ -14,6 +14,10 @@ CHECKS = {
    text="Scenarios reuse actor ids through forks and set_actor; the trace spec requires rejection exactly where the spec's Deliver rejects, queue pruning on local commit, and unique, contiguous (actor,seq) over applied and queued changes after every event.", ref="§6 C38"),
  "C10": dict(cat="model_checking", tech="TLA+ trace validation (TLC): get_changes(have) = applied minus ancestors(have), dependency order, write-once byte digests",
    text="Retrieval events must return exactly the non-ancestors of have, each after its dependencies, with byte digests equal to those fixed at creation and hash = SHA-256 of the chunk.", ref="§6 C10"),
+ "C01": dict(cat="model_checking", tech="TLA+ trace validation (TLC, Trace_Same: equal applied sets => equal observations) + replay of TLC-generated programs from Doc.tla + TLC model checking of ChangeGraph.tla (Commutes)",
+   text="Readers fed the same change set through shuffled orders, batchings, duplicates and every ingestion path must project identical documents (heads, value sets, winners, order, counters, text); design-level order independence is model checked.", ref="§6 C01"),
+ "C02": dict(cat="model_checking", tech="TLA+ trace validation (TLC, Trace_Interp: view = OpSet!Interp of the decoded ops) + exhaustive transition-coverage replay of Doc.tla behaviours into the implementation",
+   text="After every event the projected document must equal the TLA+ interpretation (multi-value registers, Lamport winner, RGA order, counter sums) of the ops decoded from the replica's own changes; in the other direction every (state, transition) pair of the bounded Doc.tla model (2-3 replicas, puts/deletes/increments/inserts/merges on a conflicted register and list) is replayed and compared step by step.", ref="§6 C02"),
 }
 
 NA_REASON = "check not built yet in this session (framework under construction; see DESIGN.md §10 build order)"
